@@ -763,12 +763,31 @@ func (s *Session) evalCall(se *SpecEnv, x *SCall) Val {
 			return untypedInt(app(SInt, "div", s.unixNano(v), I(1000000000)))
 		case "lastnow": // nanosecond reading of the most recent time.Now() call
 			return untypedInt(Select(s.ghostGet(se.st, "evres"), s.strLit("time.Now")))
+		case "keycmp": // keycmp(a, b): bytes.Compare on []byte values (three-way order on the denoted strings)
+			a := s.evalSpec(se, x.Args[0])
+			b := s.evalSpec(se, x.Args[1])
+			h := s.heapGet(se.st, heapName("A", "byte", ""), arrSort(arrSort(SInt)))
+			sa := s.uf("bytes2str", SInt, Select(h, a.L[0]), a.L[1], a.L[2])
+			sb := s.uf("bytes2str", SInt, Select(h, b.L[0]), b.L[1], b.L[2])
+			return untypedInt(s.uf("keycmp", SInt, sa, sb))
 		case "allocated": // allocated(p): reference p denotes an object that exists in this state (or nil)
 			v := s.materialize(s.evalSpec(se, x.Args[0]))
 			return boolVal(And(Ge(v.L[0], I(0)), Le(v.L[0], se.st.Top)))
 		case "isnil":
 			v := s.materialize(s.evalSpec(se, x.Args[0]))
 			return boolVal(Eq(v.L[0], I(0)))
+		case "mapval", "mapin": // raw access to a map by key term (the engine's encoding of the key), for frame statements over all keys
+			m := s.evalSpec(se, x.Args[0])
+			k := s.evalSpec(se, x.Args[1])
+			mt, ok := m.Typ.Underlying().(*types.Map)
+			if !ok {
+				specFail("%s() on non-map", x.Fun)
+			}
+			v, had := s.mapLookupRaw(se.st, mt, m.T0(), k.T0())
+			if x.Fun == "mapin" {
+				return boolVal(had)
+			}
+			return v
 		case "in": // in(m, k): key k in map m
 			m := s.evalSpec(se, x.Args[0])
 			k := s.evalSpec(se, x.Args[1])
